@@ -77,6 +77,11 @@ func evsSexp(evs []Ev) string {
 }
 
 func GenStoreFamily(w *Writer, r *Rng, t Tier) error {
+	if t.Thorough {
+		GenStreamsExhaustive(w, 6)
+	} else {
+		GenStreamsExhaustive(w, 4)
+	}
 	n := t.Docs * t.PerDoc
 	for i := 0; i < n; i++ {
 		cr := r.Fork()
@@ -125,4 +130,66 @@ func FlatStream(n int) string {
 		return "err " + err.Error()
 	}
 	return fmt.Sprintf("ok %d", len(root.Children()[0].Children()))
+}
+
+// conforming: within every element (and at top level) namespace events come before attribute
+// events, which come before child events (the Parser contract; `StoreL.Ordered` in the proofs)
+func conforming(evs []Ev) bool {
+	phase := []int{0}
+	for _, e := range evs {
+		top := len(phase) - 1
+		switch e.Kind {
+		case KNs:
+			if phase[top] != 0 {
+				return false
+			}
+		case KAttr:
+			if phase[top] > 1 {
+				return false
+			}
+			phase[top] = 1
+		case KElem:
+			phase[top] = 2
+			phase = append(phase, 0)
+		case KRoot: // close
+			if len(phase) > 1 {
+				phase = phase[:len(phase)-1]
+			}
+			phase[len(phase)-1] = 2
+		default:
+			phase[top] = 2
+		}
+	}
+	return true
+}
+
+// GenStreamsExhaustive enumerates EVERY event sequence of at most maxLen events over a seven-symbol
+// alphabet (conforming and not): the model of the builder must produce the same tree as the real one
+// on all of them; the Cursor contract and the nesting are required on the conforming ones.
+func GenStreamsExhaustive(w *Writer, maxLen int) {
+	alphabet := []Ev{{Kind: KElem, Local: "e"}, {Kind: KNs, Local: "p", Val: "u"}, {Kind: KNs, Local: "p", Val: ""}, {Kind: KAttr, Local: "k", Val: "v"},
+		{Kind: KText, Val: "t"}, EvClose(), {Kind: KComment, Val: "c"}}
+	var rec func(prefix []Ev)
+	rec = func(prefix []Ev) {
+		if len(prefix) > 0 {
+			evs := append([]Ev(nil), prefix...)
+			root, err := BuildTree(evs)
+			if err != nil {
+				w.Line("storemodel "+evsSexp(evs), "builderr", map[string]interface{}{"k": "store", "fam": "stream-exhaustive", "events": evs, "n": len(evs)})
+			} else if conforming(evs) {
+				w.Line("store "+evsSexp(evs)+" "+DumpTree(root).Sexp(), "same=1 wf=1 mirrors=1 modelwf=1 modelmirrors=1",
+					map[string]interface{}{"k": "store", "fam": "stream-exhaustive", "events": evs, "n": len(evs)})
+			} else {
+				w.Line("storeany "+evsSexp(evs)+" "+DumpTreeByPos(root).Sexp(), "same=1",
+					map[string]interface{}{"k": "store", "fam": "stream-exhaustive-nonconforming", "events": evs, "n": len(evs)})
+			}
+		}
+		if len(prefix) == maxLen {
+			return
+		}
+		for _, e := range alphabet {
+			rec(append(prefix, e))
+		}
+	}
+	rec(nil)
 }
